@@ -3,7 +3,8 @@
 //! footprint, leak), C05 (codec-owned memory).
 //!
 //! Ops: `enc_new prod|<maxInit> <maxSub>`, `dec_new …`, `feed b|c|a <payload>`,
-//! `drain_all`, `drain_slices k`, `drain_bytes k`, `finish`.
+//! `drain_all`, `drain_slices k`, `drain_bytes k`, `drain_read k` (`impl Read for ConsumingIovec`), `finish`.
+//! After `R err ...` a decoder lives on (fresh state, same iovec): further feeds / drains / `finish` work.
 //! `<payload>` = hex or `gen:<len>:<seed>:<density>`.
 //! Public-API completion (track apigaps): `enc_default` / `dec_default` (`Default`),
 //! `enc_from <prefill> <limits>` / `dec_from ...` (`new_from_iovec` on an iovec that already holds
@@ -99,6 +100,61 @@ struct CodecWExec {
     undrained: bool,
     /// every feed so far was followed by `drain_all` before the next one (the streaming regime of C10)
     streaming: bool,
+    // ---- (helper decw) decoder session shadow state for the direct oracle
+    /// wire bytes of the current message: everything fed since `dec_new` / the last `Err`
+    dec_msg: Vec<u8>,
+    /// what the decoder had output (drained ++ buffered) when the current message started
+    dec_held: Vec<u8>,
+    /// a call returned `Err`: the next `describe` re-bases `dec_held`
+    dec_rebase: bool,
+    /// number of `Err`s so far
+    dec_errors: usize,
+    /// drained ++ stable bytes after the previous op (C09 prefix clause, checked op by op)
+    prev_out: Vec<u8>,
+}
+
+/// (helper decw) Reference HCOBS decoder for the direct oracle of the decoder session: a plain
+/// length-prefixed walk written from the format description (first header one byte <= `mi` <= 252, later
+/// headers two little-endian radix-253 digits <= `ms`; a chunk shorter than its limit owes `FE FD` unless it
+/// is the last one; the last chunk must be short).  `None` = not a complete well-formed message.
+fn ref_decode_w(mi: usize, ms: usize, wire: &[u8]) -> Option<Vec<u8>> {
+    let mut out = Vec::new();
+    let mut pos = 0usize;
+    let mut first = true;
+    let mut prev_short = false;
+    loop {
+        if pos == wire.len() {
+            return if !first && prev_short { Some(out) } else { None };
+        }
+        let (n, limit) = if first {
+            let n = wire[pos] as usize;
+            pos += 1;
+            if n > 252 || n > mi {
+                return None;
+            }
+            (n, mi)
+        } else {
+            if pos + 2 > wire.len() {
+                return None;
+            }
+            let (d0, d1) = (wire[pos] as usize, wire[pos + 1] as usize);
+            pos += 2;
+            if d0 >= 253 || d1 >= 253 || d0 + 253 * d1 > ms {
+                return None;
+            }
+            (d0 + 253 * d1, ms)
+        };
+        if !first && prev_short {
+            out.extend_from_slice(&[0xFE, 0xFD]);
+        }
+        if wire.len() - pos < n {
+            return None;
+        }
+        out.extend_from_slice(&wire[pos..pos + n]);
+        pos += n;
+        prev_short = n < limit;
+        first = false;
+    }
 }
 
 fn err_name(e: &DecodingError) -> String {
@@ -163,6 +219,62 @@ impl CodecWExec {
         }
     }
 
+    /// (helper decw) One decoder call returned: `wire` entered the state machine, verdict `ok`.
+    /// An `Err` must be justified (no completion... at least: what was fed is not a well-formed message),
+    /// and re-bases the session: the decoder is fresh over the same iovec.
+    fn dec_note_call(&mut self, so: &mut StepOut, wire: &[u8], ok: bool) {
+        self.dec_msg.extend_from_slice(wire);
+        if !ok {
+            if ref_decode_w(self.limits.0, self.limits.1, &self.dec_msg).is_some() {
+                so.violations.push(format!(
+                    "C07 decoder returned Err on a well-formed chunk sequence (after {} earlier error(s))",
+                    self.dec_errors
+                ));
+            }
+            self.dec_errors += 1;
+            self.dec_rebase = true;
+        }
+    }
+
+    /// (helper decw) `finish` / `take_iovec` of a decoder: `all` = drained ++ flatten of the returned iovec.
+    /// After any number of failed messages, the bytes of the last message are exactly its decoding,
+    /// appended to what the iovec held when it started (resynchronisation by the caller).
+    fn dec_finish_oracle(&mut self, so: &mut StepOut, verdict_ok: bool, v: Option<&OwningIovec<'static>>) {
+        let want = ref_decode_w(self.limits.0, self.limits.1, &self.dec_msg);
+        match (verdict_ok, &want) {
+            (true, None) => so.violations.push(format!(
+                "C07 decoder accepted an ill-formed chunk sequence at finish (after {} error(s))",
+                self.dec_errors
+            )),
+            (false, Some(_)) => so.violations.push(format!(
+                "C07 decoder rejected a well-formed chunk sequence at finish (after {} error(s))",
+                self.dec_errors
+            )),
+            _ => {}
+        }
+        if let (true, Some(d), Some(v)) = (verdict_ok, &want, v) {
+            let mut all = self.drained.clone();
+            match v.flatten() {
+                Ok(rest) => all.extend_from_slice(&rest),
+                Err(_) => so.violations.push("C04 decoder iovec has a pending placeholder".into()),
+            }
+            let mut expect = self.dec_held.clone();
+            expect.extend_from_slice(d);
+            if all != expect {
+                let msg = format!(
+                    "decoder output (drained ++ final) is not [what the iovec held when the message started] ++ decode(message), after {} error(s): got {} bytes, want {} + {}",
+                    self.dec_errors,
+                    all.len(),
+                    self.dec_held.len(),
+                    d.len()
+                );
+                so.violations.push(format!("C01 {}", msg));
+                so.violations.push(format!("C07 {}", msg));
+                so.violations.push(format!("C09 {}", msg));
+            }
+        }
+    }
+
     fn with_consumer<R>(&mut self, f: impl FnOnce(&mut ConsumingIovec<'_>) -> R) -> Option<R> {
         match &mut self.codec {
             Codec::Enc(e) => Some(f(&mut e.consumer())),
@@ -208,6 +320,26 @@ impl CodecWExec {
             ));
             let lag = size - bytes.len();
             self.max_lag = self.max_lag.max(lag);
+            // ---- (helper decw) C09 prefix clause, op by op: what was consumable (drained ++ stable) stays a
+            // prefix of what is consumable later, errors or not (a failed call only appends)
+            {
+                let mut out = self.drained.clone();
+                out.extend_from_slice(&bytes);
+                if !out.starts_with(&self.prev_out) {
+                    let msg = "bytes that were drained or consumable are no longer a prefix of drained ++ consumable";
+                    so.violations.push(format!("C09 {}", msg));
+                    if !self.is_enc {
+                        so.violations.push(format!("C07 {} (decoder, {} error(s) so far)", msg, self.dec_errors));
+                    }
+                }
+                if self.dec_rebase {
+                    // the decoder registers no placeholder: stable = everything buffered
+                    self.dec_rebase = false;
+                    self.dec_held = out.clone();
+                    self.dec_msg.clear();
+                }
+                self.prev_out = out;
+            }
             // ---- C09 oracle: lag bounded by one arena chunk + one HCOBS chunk and its header
             let bound = if self.is_enc { MAX_CHUNK + self.limits.1.max(self.limits.0) + 2 } else { 0 };
             if lag > bound {
@@ -278,6 +410,7 @@ impl Exec for CodecWExec {
                 let (Some(pre), Some(lim)) = (from_hex(prefill), parse_limits(rest)) else { return StepOut::bad() };
                 self.is_enc = *op == "enc_from";
                 self.prefill = pre.clone();
+                self.dec_held = pre.clone(); // (helper decw)
                 let mut iov = OwningIovec::new();
                 let s = self.add_buf(pre);
                 iov.push(s);
@@ -457,8 +590,19 @@ impl Exec for CodecWExec {
                     Some(Ok(())) => so.obs.push("R ok".into()),
                     Some(Err(e)) => {
                         so.obs.push(format!("R err {}", err_name(&e)));
-                        // keep the output observable, stop decoding
-                        self.failed = true;
+                        // (helper decw) the decoder object lives on in `InitialState` over the same iovec
+                    }
+                }
+                // (helper decw) direct oracle for the decoder: session shadow state
+                if !self.is_enc {
+                    let verdict = match &res {
+                        Some(Err(_)) => Some(false),
+                        Some(Ok(())) => Some(true),
+                        None => None,
+                    };
+                    if let Some(ok) = verdict {
+                        let wire = self.logical_input[self.logical_input.len() - n..].to_vec();
+                        self.dec_note_call(&mut so, &wire, ok);
                     }
                 }
             }
@@ -506,6 +650,48 @@ impl Exec for CodecWExec {
                 }
                 self.drained.extend_from_slice(&took.0);
                 so.obs.push(format!("R {}", n));
+            }
+            // (helper decw) `consumer().read(&mut buf[..k])`: `impl Read for ConsumingIovec`
+            ["drain_read", k] => {
+                let Ok(k) = k.parse::<usize>() else { return StepOut::bad() };
+                if k > (1 << 24) {
+                    return StepOut::bad();
+                }
+                let Some((got, snap, removed)) = self.with_consumer(|c| {
+                    use std::io::Read;
+                    let mut snap = Vec::new();
+                    for s in c.stable_prefix() {
+                        snap.extend_from_slice(s);
+                    }
+                    let before = c.total_size();
+                    // poisoned destination: bytes beyond the returned count must stay untouched
+                    let mut buf = vec![0xA5u8; k + 3];
+                    let n = c.read(&mut buf[..k]).expect("ConsumingIovec::read never fails");
+                    let removed = before - c.total_size();
+                    ((buf, n), snap, removed)
+                }) else {
+                    return StepOut::bad();
+                };
+                let (buf, n) = got;
+                // ---- direct oracle (C03/C04/C09): exactly the first min(k, consumable) consumable bytes come
+                // out, in order; as many bytes leave the iovec as were copied; nothing else is written
+                // (a SHORT read - fewer than min(k, consumable) bytes - is allowed by `io::Read` and loses nothing:
+                // it is left to the correspondence with the model, which fills the buffer like the code does)
+                if n > k || n > snap.len() {
+                    so.violations.push(format!("C09 read(buf[..{}]) returned {} with {} bytes consumable", k, n, snap.len()));
+                }
+                if n > k || buf[..n.min(k)] != snap[..n.min(snap.len()).min(k)] {
+                    so.violations.push("C09 read() returned other bytes than the head of the stable prefix".into());
+                }
+                if removed != n {
+                    so.violations.push(format!("C09 read() copied {} bytes but consumed {}", n, removed));
+                }
+                if buf[n.min(k)..].iter().any(|b| *b != 0xA5) {
+                    so.violations.push("C09 read() wrote beyond the bytes it reported".into());
+                }
+                self.drained.extend_from_slice(&buf[..n.min(k)]);
+                let shown = if n <= 16 { if n == 0 { "-".to_string() } else { to_hex(&buf[..n]) } } else { format!("#{}:{:016x}", n, fnv64(&buf[..n])) };
+                so.obs.push(format!("R {} {}", n, shown));
             }
             ["feed_read", count, attempts, src, script] => {
                 if self.failed {
@@ -578,6 +764,11 @@ impl Exec for CodecWExec {
                     R::Io(k) => Err(*k),
                 };
                 so.violations.extend(oracle_c17(count, attempts, &reader.calls, &as_result));
+                enum R2 {
+                    Ok,
+                    Other,
+                }
+                let r2 = if matches!(r, R::Ok(_)) { R2::Ok } else { R2::Other };
                 match r {
                     R::Ok(n) => {
                         if n != delivered.len() {
@@ -591,7 +782,15 @@ impl Exec for CodecWExec {
                     R::Dec(de) => {
                         self.logical_input.extend_from_slice(&delivered);
                         so.obs.push(format!("R err {} reqs={}", err_name(&de), nat_list(&reqs)));
-                        self.failed = true;
+                        // (helper decw) the decoder object lives on
+                        if !self.is_enc {
+                            self.dec_note_call(&mut so, &delivered, false);
+                        }
+                    }
+                }
+                if !self.is_enc {
+                    if let R2::Ok = r2 {
+                        self.dec_note_call(&mut so, &delivered, true);
                     }
                 }
             }
@@ -616,10 +815,12 @@ impl Exec for CodecWExec {
                     Codec::Dec(d) => match d.finish() {
                         Ok(v) => {
                             so.obs.push("R ok".into());
+                            self.dec_finish_oracle(&mut so, true, Some(&v));
                             Codec::Done(v)
                         }
                         Err(e) => {
                             so.obs.push(format!("R err {}", err_name(&e)));
+                            self.dec_finish_oracle(&mut so, false, None);
                             self.failed = true;
                             Codec::Failed
                         }
@@ -627,10 +828,12 @@ impl Exec for CodecWExec {
                     Codec::VDec(d) => match d.finish() {
                         Ok(v) => {
                             so.obs.push("R ok".into());
+                            self.dec_finish_oracle(&mut so, true, Some(&v));
                             Codec::Done(v)
                         }
                         Err(e) => {
                             so.obs.push(format!("R err {}", err_name(&e)));
+                            self.dec_finish_oracle(&mut so, false, None);
                             self.failed = true;
                             Codec::Failed
                         }
@@ -706,6 +909,11 @@ impl Family for CodecWFamily {
             prefill: vec![],
             undrained: false,
             streaming: true,
+            dec_msg: vec![],
+            dec_held: vec![],
+            dec_rebase: false,
+            dec_errors: 0,
+            prev_out: vec![],
         })
     }
 
@@ -718,6 +926,12 @@ impl Family for CodecWFamily {
         } else {
             "prod".to_string()
         };
+        // ---- (helper decw) BEGIN: decoder SESSIONS - messages separated by errors; the caller resynchronises
+        // by feeding a complete valid message after an `Err`; all input methods, all drains incl. `drain_read`
+        if idx % 4 == 1 {
+            return gen_dec_session(rng);
+        }
+        // ---- (helper decw) END
         let decoder = rng.chance(1, 4);
         // streaming soak cases: many medium pieces, drain everything after each call
         let soak = !decoder && !tiny && (idx % 8 == 0);
@@ -800,6 +1014,10 @@ impl Family for CodecWFamily {
                 if rng.chance(1, 3) {
                     ops.push("drain_all".into());
                 }
+                // (helper decw) `impl Read for ConsumingIovec`
+                if rng.chance(1, 5) {
+                    ops.push(format!("drain_read {}", rng.range(0, 40)));
+                }
             }
             // `take_iovec` hands the iovec over without the end-of-record check
             if !tiny && rng.chance(1, 3) {
@@ -852,9 +1070,190 @@ impl Family for CodecWFamily {
                 2 => ops.push(format!("drain_bytes {}", rng.range(0, 300))),
                 _ => {}
             }
+            // (helper decw) `impl Read for ConsumingIovec`, mixed with the other drains
+            if !soak && rng.chance(1, 5) {
+                ops.push(format!("drain_read {}", *rng.pick(&[0u64, 1, 2, 3, 7, 64, 65, 300, 5000])));
+            }
         }
         ops.push("finish".into());
+        // (helper decw) sometimes read the tail out through `Read` (short and long destination buffers)
+        if rng.chance(1, 3) {
+            ops.push(format!("drain_read {}", *rng.pick(&[1u64, 5, 100, 70000])));
+        }
         ops.push("drain_all".into());
         ops
     }
+}
+
+// ---- (helper decw) decoder sessions -------------------------------------------------------------------
+
+/// Offsets of the size headers of a well-formed wire message (first: 1 byte, later: 2 bytes).
+fn header_positions(mi: usize, ms: usize, wire: &[u8]) -> Vec<usize> {
+    let mut v = Vec::new();
+    let mut pos = 0usize;
+    let mut first = true;
+    while pos < wire.len() {
+        v.push(pos);
+        let n = if first {
+            let n = wire[pos] as usize;
+            pos += 1;
+            n.min(mi)
+        } else {
+            if pos + 2 > wire.len() {
+                break;
+            }
+            let n = wire[pos] as usize + 253 * wire[pos + 1] as usize;
+            pos += 2;
+            n.min(ms)
+        };
+        pos += n;
+        first = false;
+    }
+    v
+}
+
+fn real_encode(lim: Option<(usize, usize)>, payload: &[u8]) -> Vec<u8> {
+    match lim {
+        None => {
+            let mut e = Encoder::new();
+            e.encode_copy(payload);
+            e.finish().flatten().unwrap_or_default()
+        }
+        Some((a, b)) => {
+            let mut e = VerifEncoder::new_from_iovec(OwningIovec::new(), a, b).expect("limits");
+            e.encode_copy(payload);
+            e.finish().flatten().unwrap_or_default()
+        }
+    }
+}
+
+/// One decoder object, several messages.  Every message but (possibly) the last ends in a call that
+/// returns `Err` (a corrupted header somewhere in the message, in the middle of a multi-piece feed); the
+/// caller then drops the rest of that message and feeds the next one: a complete valid message decodes
+/// to exactly its payload, appended after whatever the failed messages had already pushed.
+fn gen_dec_session(rng: &mut Rng) -> Vec<String> {
+    let mut ops = Vec::new();
+    let lim: Option<(usize, usize)> = if rng.chance(2, 3) { Some(*rng.pick(&[(3usize, 5usize), (1, 1), (2, 7), (4, 300), (252, 600)])) } else { None };
+    let (mi, ms) = lim.unwrap_or((PROD_INIT, PROD_SUB));
+    let lim_s = match lim {
+        Some((a, b)) => format!("{} {}", a, b),
+        None => "prod".to_string(),
+    };
+    if rng.chance(1, 4) {
+        let n = *rng.pick(&[1usize, 3, 64, 65, 300]);
+        ops.push(format!("dec_from {} {}", to_hex(&(0..n).map(|k| 0xA0u8.wrapping_add(k as u8)).collect::<Vec<u8>>()), lim_s));
+    } else {
+        ops.push(format!("dec_new {}", lim_s));
+    }
+    let drain = |rng: &mut Rng, ops: &mut Vec<String>| match rng.below(8) {
+        0 => ops.push("drain_all".into()),
+        1 => ops.push(format!("drain_slices {}", rng.range(0, 3))),
+        2 => ops.push(format!("drain_bytes {}", rng.range(0, 80))),
+        3 | 4 => ops.push(format!("drain_read {}", *rng.pick(&[0u64, 1, 2, 3, 5, 9, 64, 65, 300]))),
+        _ => {}
+    };
+    let feed = |rng: &mut Rng, ops: &mut Vec<String>, piece: &[u8]| {
+        if rng.chance(1, 5) {
+            // `decode_read` with a scripted reader that delivers everything (after hiccups)
+            let script = *rng.pick(&["d100000", "x0,d100000", "d1,x0,d100000"]);
+            ops.push(format!("feed_read {} 4 {} {}", piece.len(), to_hex(piece), script));
+        } else {
+            ops.push(format!("feed {} {}", rng.pick(&["b", "c", "a", "f"]), to_hex(piece)));
+        }
+    };
+    let nmsgs = rng.range(1, 4) as usize;
+    let mut ended = false;
+    for j in 0..nmsgs {
+        let last = j + 1 == nmsgs;
+        // payload: short pieces around the chunk limits, FE/FD runs, and (production limits) a long run
+        let plen = match rng.below(5) {
+            0 => 0,
+            1 => mi.min(300) + rng.range(0, 3) as usize,
+            2 if lim.is_none() => rng.range(253, 700) as usize,
+            _ => rng.range(1, 40) as usize,
+        };
+        let payload: Vec<u8> = (0..plen).map(|_| if rng.chance(1, 4) { *rng.pick(&[0xFEu8, 0xFD]) } else { rng.next() as u8 }).collect();
+        let wire = real_encode(lim, &payload);
+        let fail = !last || rng.chance(1, 4);
+        if fail && (last && rng.chance(1, 2)) {
+            // the last message is cut short: no call fails, `finish` reports it
+            let cut = rng.range(0, wire.len() as u64) as usize;
+            let mut at = 0usize;
+            while at < cut {
+                let n = (rng.range(1, 9) as usize).min(cut - at);
+                feed(rng, &mut ops, &wire[at..at + n]);
+                drain(rng, &mut ops);
+                at += n;
+            }
+            break;
+        }
+        let body: Vec<u8> = if fail {
+            // corrupt one header: everything before it is valid and gets decoded (and stays in the iovec)
+            let hp = header_positions(mi, ms, &wire);
+            let h = rng.below(hp.len() as u64) as usize;
+            let mut b = wire[..hp[h]].to_vec();
+            if h == 0 {
+                b.push(if mi < 252 && rng.chance(1, 2) { (mi + 1) as u8 } else { *rng.pick(&[253u8, 254, 255]) });
+            } else {
+                match rng.below(3) {
+                    0 => b.push(*rng.pick(&[253u8, 254, 255])),
+                    1 => b.extend([rng.range(0, 252) as u8, *rng.pick(&[253u8, 254, 255])]),
+                    _ if ms + 1 < 253 * 253 => b.extend([((ms + 1) % 253) as u8, ((ms + 1) / 253) as u8]),
+                    _ => b.push(0xFF),
+                }
+            }
+            // junk after the rejected byte, in the same call: never looked at
+            for _ in 0..rng.below(3) {
+                b.push(rng.next() as u8);
+            }
+            b
+        } else {
+            wire.clone()
+        };
+        // 1..3 pieces; for a failing message the LAST piece contains the corrupted header
+        let npieces = rng.range(1, 3) as usize;
+        let mut cuts: Vec<usize> = (0..npieces - 1).map(|_| rng.range(0, body.len() as u64) as usize).collect();
+        if fail {
+            let hp = header_positions(mi, ms, &wire);
+            // the corrupted header starts at the largest header offset <= its position in `body`
+            let bad_at = hp.iter().copied().filter(|p| *p < body.len()).max().unwrap_or(0);
+            for c in cuts.iter_mut() {
+                *c = (*c).min(bad_at);
+            }
+        }
+        cuts.sort();
+        cuts.push(body.len());
+        let mut at = 0usize;
+        for (k, c) in cuts.iter().enumerate() {
+            feed(rng, &mut ops, &body[at..*c]);
+            at = *c;
+            if k + 1 < cuts.len() || !fail || rng.chance(1, 2) {
+                drain(rng, &mut ops);
+            }
+        }
+        if fail && last {
+            // nothing after the error
+            if rng.chance(1, 2) {
+                // `finish` right after an `Err`: the error is not remembered (InitialState => CutShort)
+                ops.push("finish".into());
+                ended = true;
+            }
+        }
+    }
+    if !ended {
+        if lim.is_none() && rng.chance(1, 6) {
+            ops.push("take_iovec".into());
+        } else {
+            ops.push("finish".into());
+        }
+    }
+    match rng.below(3) {
+        0 => ops.push("drain_read 100000".into()),
+        1 => ops.push("drain_all".into()),
+        _ => {
+            ops.push("drain_read 3".into());
+            ops.push("drain_bytes 100000".into());
+        }
+    }
+    ops
 }
